@@ -67,6 +67,6 @@ func vpN() int {
 	if vp.Tier() == 0 {
 		return 9
 	}
-	return 11
+	return 10
 }
 
